@@ -12,24 +12,31 @@ open Text
 /-- Without any pragma the factory is Vue's createVNode, imported from 'vue'. -/
 theorem C15_default_createVNode (o : Opts) (st : St) (h1 : st.pragma = none) (h2 : o.pragma = none) :
     getPragma o st = st.importFromVue "createVNode" := by
-  simp [getPragma, h1, h2]
+  simp [getPragma, effPragma, h1, h2]
 
 /-- A comment annotation takes precedence over the option, and nothing is imported for it. -/
-theorem C15_comment_over_option (o : Opts) (st : St) (p : String) (h : st.pragma = some p) :
+theorem C15_comment_over_option (o : Opts) (st : St) (p : String) (h : st.pragma = some p) (hv : isValidPragma p = true) :
     getPragma o st = (nQuoteIdent p, st) := by
-  simp [getPragma, h]
+  simp [getPragma, effPragma, h, hv]
 
 /-- The `pragma` option names the factory when no comment does; createVNode is not imported for it. -/
-theorem C15_option_pragma (o : Opts) (st : St) (q : String) (h1 : st.pragma = none) (h2 : o.pragma = some q) :
+theorem C15_option_pragma (o : Opts) (st : St) (q : String) (h1 : st.pragma = none) (h2 : o.pragma = some q)
+    (hv : isValidPragma q = true) :
     getPragma o st = (nQuoteIdent q, st) := by
-  simp [getPragma, h1, h2]
+  simp [getPragma, effPragma, h1, h2, hv]
+
+/-- A pragma that is not an identifier (or identifiers joined by dots) is REPORTED, and Vue's createVNode is used instead:
+    the output never calls something that cannot be called (`h(`, `h x`, `1`, the empty string, a reserved word). -/
+theorem C15_invalid_pragma_reported (o : Opts) (st : St) (p : String) (h : effPragma o st = some p) (hv : isValidPragma p = false) :
+    getPragma o st = (st.err ("Error: `" ++ p ++ "` can't be used as JSX pragma: it is not an identifier.")).importFromVue "createVNode" := by
+  simp [getPragma, h, hv]
 
 /-- Every fragment is created by calling exactly the pragma identifier. -/
 theorem C15_fragment_callee (o : Opts) (env : Env) (as1 as2 : List String) (op cl : Node) (children : List Node) (st : St) (p : String)
-    (h : st.pragma = some p) :
+    (h : st.pragma = some p) (hv : isValidPragma p = true) :
     ∃ args st', trFragment o env (.mk .jsxFragment as1 [op, .mk .list as2 children, cl]) st = (nCall (nQuoteIdent p) args, st') := by
   have hp : (pushFlag o st).pragma = some p := by unfold pushFlag; split <;> simp [h]
-  simp only [trFragment, getPragma, hp]
+  simp only [trFragment, getPragma, effPragma, hp, hv, if_true]
   exact ⟨_, _, rfl⟩
 
 /-- A later annotated position overrides an earlier one (module head first, then the statements in order). -/
@@ -117,7 +124,7 @@ theorem C15_scan_result_is_one_word (c : List Char) (name : List Char) (h : prag
     argument of the `withDirectives` wrapper) has the callee `p` — whatever attributes, directives and children the
     element has (the pragma is read after they were processed; none of them can change it: frame lemmas). -/
 theorem C15_element_callee (o : Opts) (env : Env) (a0 a1 a2 a3 : List String) (nameN x y : Node) (attrs children : List Node)
-    (st : St) (p : String) (h : st.pragma = some p) :
+    (st : St) (p : String) (h : st.pragma = some p) (hv : isValidPragma p = true) :
     let r := trElement o env (.mk .jsxElement a0 [.mk .jsxOpening a1 [nameN, .mk .list a2 attrs, x], .mk .list a3 children, y]) st
     (∃ args, r.1 = nCall (nQuoteIdent p) args) ∨ (∃ wd args rest, r.1 = nCall wd (nArg (nCall (nQuoteIdent p) args) :: rest)) := by
   simp only [trElement]
@@ -133,7 +140,7 @@ theorem C15_element_callee (o : Opts) (env : Env) (a0 a1 a2 a3 : List String) (n
   have hp : stp.pragma = some p := by
     have : stp.ro.1 = st.ro.1 := by rw [hro]
     simpa [St.ro, h] using this
-  have hg : (getPragma o stp).1 = nQuoteIdent p := by simp [getPragma, hp]
+  have hg : (getPragma o stp).1 = nQuoteIdent p := by simp [getPragma, effPragma, hp, hv]
   split
   · left; exact ⟨_, by rw [hg]⟩
   · right; exact ⟨_, _, _, by rw [hg]⟩
